@@ -596,3 +596,117 @@ where
     let lib = catch(|| w.check(&[0], &pt, vec![val], &proof, &mut sp_l));
     decide(lib, ok, &format!("{}, replaced component: {}", S::NAME, names[which.min(11)]))
 }
+
+// ---------------------------------------------------------------- inherent APIs: KZG10, multilinear PST, streaming KZG
+/// KZG10::check and KZG10::batch_check against e(C - vG - rho*gammaG, H) = e(W, betaH - zH)
+/// (batch: the r-weighted sum over the proofs with r_1 = 1 and r_i drawn from the verifier tape)
+pub fn kzg10(which: usize, batch: bool, seed: u64) -> Verdict {
+    use ark_poly::{DenseUVPolynomial, Polynomial};
+    use ark_poly_commit::kzg10::{Powers, VerifierKey, KZG10};
+    use ark_std::rand::{rngs::StdRng, SeedableRng};
+    use ark_ff::UniformRand;
+    type K = KZG10<ToyPairing, UP>;
+    let rng = &mut StdRng::seed_from_u64((seed + 5) ^ crate::engine::explore::replay_salt());
+    let pp = match K::setup(3, false, rng) {
+        Ok(p) => p,
+        Err(_) => return Verdict::Discard("setup failed".into()),
+    };
+    let powers = Powers { powers_of_g: pp.powers_of_g[..=3].to_vec().into(), powers_of_gamma_g: (0..=4).map(|i| pp.powers_of_gamma_g[&i]).collect::<Vec<_>>().into() };
+    let mut vk = VerifierKey { g: pp.powers_of_g[0], gamma_g: pp.powers_of_gamma_g[&0], h: pp.h, beta_h: pp.beta_h, prepared_h: pp.prepared_h.clone(), prepared_beta_h: pp.prepared_beta_h.clone() };
+    crate::engine::sf::RNG_NONZERO.with(|c| c.set(true));
+    let n = if batch { 2 } else { 1 };
+    let (mut comms, mut pts, mut vals, mut proofs) = (vec![], vec![], vec![], vec![]);
+    for i in 0..n {
+        // batch shapes: non-zero leading coefficients (the degenerate lengths are covered by the single-proof shapes)
+        let c: Vec<SF> = (0..2).map(|j| if batch && j == 1 { crate::engine::explore::sym_nonzero(&format!("p{}c{}", i, j)) } else { sym(&format!("p{}c{}", i, j)) }).collect();
+        let p = UP::from_coefficients_vec(c);
+        let z = sym(&format!("z{}", i));
+        let hid = if i == 0 { Some(1) } else { None };
+        let (cm, r) = match crate::engine::explore::with_sym_rng(true, || K::commit(&powers, &p, hid, Some(rng))) {
+            Ok(x) => x,
+            Err(_) => return Verdict::Discard("commit failed".into()),
+        };
+        let pr = match K::open(&powers, &p, z, &r) {
+            Ok(x) => x,
+            Err(_) => return Verdict::Discard("open failed".into()),
+        };
+        comms.push(cm);
+        pts.push(z);
+        vals.push(p.evaluate(&z));
+        proofs.push(pr);
+    }
+    let x = sym("x");
+    let names = ["honest", "commitment", "point", "value", "w", "random_v", "vk.g", "vk.gamma_g", "vk.h", "vk.beta_h"];
+    let last = n - 1;
+    match which {
+        1 => comms[last].0 = TA(x),
+        2 => pts[last] = x,
+        3 => vals[last] = x,
+        4 => proofs[last].w = TA(x),
+        5 => proofs[0].random_v = Some(x),
+        6 => vk.g = TA(x),
+        7 => vk.gamma_g = TA(x),
+        8 => { vk.h = TA(x); vk.prepared_h = TA(x); }
+        9 => { vk.beta_h = TA(x); vk.prepared_beta_h = TA(x); }
+        _ => {}
+    }
+    let tape = seed + 900;
+    let (lib, reference) = if batch {
+        let lib = catch(|| K::batch_check(&vk, &comms, &pts, &vals, &proofs, &mut StdRng::seed_from_u64(tape)).map_err(|e| errname(&e)));
+        // the verifier's randomizers: r_1 = 1, then 128-bit draws from its RNG
+        let mut vr = StdRng::seed_from_u64(tape);
+        let mut r = SF::one();
+        let mut total = SF::zero();
+        for i in 0..n {
+            let rho = proofs[i].random_v.unwrap_or(SF::zero());
+            total += r * ((comms[i].0 .0 - vals[i] * vk.g.0 - rho * vk.gamma_g.0) * vk.h.0 - proofs[i].w.0 * (vk.beta_h.0 - pts[i] * vk.h.0));
+            r = SF::from(u128::rand(&mut vr));
+        }
+        (lib, total == SF::zero())
+    } else {
+        let lib = catch(|| K::check(&vk, &comms[0], pts[0], vals[0], &proofs[0]).map_err(|e| errname(&e)));
+        let rho = proofs[0].random_v.unwrap_or(SF::zero());
+        let ok = (comms[0].0 .0 - vals[0] * vk.g.0 - rho * vk.gamma_g.0) * vk.h.0 == proofs[0].w.0 * (vk.beta_h.0 - pts[0] * vk.h.0);
+        (lib, ok)
+    };
+    decide(lib, reference, &format!("kzg10 {}, replaced component: {}", if batch { "batch_check" } else { "check" }, names[which.min(9)]))
+}
+
+/// multilinear PST: e(C - vG, H) = prod_i e(G_mask_i - z_i G, pi_i), exactly nv proof elements
+pub fn mlpst(which: usize, seed: u64) -> Verdict {
+    use ark_poly::Polynomial;
+    use ark_poly_commit::multilinear_pc::MultilinearPC;
+    use ark_std::rand::{rngs::StdRng, SeedableRng};
+    let nv = 2;
+    let rng = &mut StdRng::seed_from_u64((seed + 5) ^ crate::engine::explore::replay_salt());
+    let pp = MultilinearPC::<ToyPairing>::setup(nv, rng);
+    let (ck, mut vk) = MultilinearPC::<ToyPairing>::trim(&pp, nv);
+    let e: Vec<SF> = (0..1 << nv).map(|j| sym(&format!("e{}", j))).collect();
+    let p = ML::from_evaluations_vec(nv, e);
+    let mut pt: Vec<SF> = (0..nv).map(|j| sym(&format!("z{}", j))).collect();
+    let mut com = MultilinearPC::commit(&ck, &p);
+    let mut proof = MultilinearPC::open(&ck, &p, &pt);
+    let mut v = p.evaluate(&pt);
+    let x = sym("x");
+    let names = ["honest", "commitment", "point[0]", "point[last]", "value", "proof[0]", "proof[last]", "vk.g", "vk.h", "vk.g_mask[0]"];
+    match which {
+        1 => com.g_product = TA(x),
+        2 => pt[0] = x,
+        3 => pt[nv - 1] = x,
+        4 => v = x,
+        5 => proof.proofs[0] = TA(x),
+        6 => proof.proofs[nv - 1] = TA(x),
+        7 => vk.g = TA(x),
+        8 => vk.h = TA(x),
+        9 => vk.g_mask_random[0] = TA(x),
+        _ => {}
+    }
+    let lhs = (com.g_product.0 - v * vk.g.0) * vk.h.0;
+    let mut rhs = SF::zero();
+    for i in 0..nv {
+        rhs += (vk.g_mask_random[i].0 - pt[i] * vk.g.0) * proof.proofs[i].0;
+    }
+    let reference = proof.proofs.len() == nv && lhs == rhs;
+    let lib = catch(|| Ok::<bool, String>(MultilinearPC::check(&vk, &com, &pt, v, &proof)));
+    decide(lib, reference, &format!("multilinear PST, replaced component: {}", names[which.min(9)]))
+}
